@@ -36,6 +36,9 @@ pub struct GenCase {
     pub classes: Vec<String>,
     pub ids: Vec<String>,
     pub exceptions: Vec<String>,
+    /// indices of rules written with whitespace between `##` and the selector
+    #[serde(default)]
+    pub spaced: Vec<usize>,
 }
 
 impl Case for GenCase {
@@ -66,7 +69,10 @@ impl Case for GenCase {
 }
 
 pub fn check_case(c: &GenCase, obs: &mut Obs) -> Result<(), String> {
-    let lines: Vec<String> = c.rules.iter().map(|r| r.line()).collect();
+    let lines: Vec<String> = c.rules.iter().enumerate().map(|(i, r)| if c.spaced.contains(&i) { r.line().replacen("##", if i % 2 == 0 { "## " } else { "##  \t" }, 1) } else { r.line() }).collect();
+    if !c.spaced.is_empty() {
+        obs.label("space-after-marker");
+    }
     let e = build_engine(&lines, false, true, &[]);
     let x: HashSet<String> = c.exceptions.iter().cloned().collect();
     let got: BTreeSet<String> = e.hidden_class_id_selectors(&c.classes, &c.ids, &x).into_iter().collect();
@@ -132,7 +138,11 @@ pub fn check_case(c: &GenCase, obs: &mut Obs) -> Result<(), String> {
     Ok(())
 }
 
-const IDENT_PLAIN: &[&str] = &["ad", "ads", "banner", "x", "a-b", "a_b", "Ad", "ünï", "日本", "b1", "-x", "_y", "a1b2"];
+const IDENT_PLAIN: &[&str] = &[
+    "ad", "ads", "banner", "x", "a-b", "a_b", "Ad", "ünï", "日本", "b1", "-x", "_y", "a1b2",
+    // identifier characters that are not alphanumeric: combining marks (virama, acute), ZWNJ/ZWJ, connector punctuation
+    "विज्ञापन", "تبلیغ\u{200c}ها", "a\u{0301}b", "x\u{203f}y", "क\u{200d}ष", "e\u{0301}",
+];
 
 /// (escaped text, unescaped value)
 fn ident(t: &mut Tape) -> (String, String) {
@@ -281,11 +291,12 @@ pub fn decode(t: &mut Tape) -> GenCase {
     // model handles it (it is computed over all rules)
     classes.dedup();
     ids.dedup();
-    GenCase { rules, classes, ids, exceptions }
+    let spaced: Vec<usize> = (0..rules.len()).filter(|_| t.chance(1, 12)).collect();
+    GenCase { rules, classes, ids, exceptions, spaced }
 }
 
 pub fn check(ctx: &mut Ctx) {
-    ctx.rule = "1-8 generic rules '##SEL' (1/10 written as '~neg.example##SEL'): SEL = '.ident' / '#ident' with ident from the CSS identifier grammar (plain, non-ASCII, backslash-escaped punctuation, hex escapes of 1-6 digits with/without the terminating space, upper/lower-case digits) followed by nothing (simple) or a compound/descendant/list tail (complex, often sharing its key with a simple rule; 1 case in 12 adds a family of 2-90 complex rules under one key), or a selector starting with neither; class/id query sets = the unescaped names of a subset of the rules + near misses (escaped spelling, prefix, suffix, case, other namespace); exception sets drawn from the rules' selectors. Oracle: identifiers are generated together with their unescaped value; expected lookup result = selectors whose unescaped key is queried, minus exceptions (asked of the built engine and of an engine loaded from its serialized bytes); partition: each selector is served by exactly one of hidden_class_id_selectors(own key) and url_cosmetic_resources(..).hide_selectors. Non-trivial = a rule with an escape, or a complex rule sharing its key with a simple one.".into();
+    ctx.rule = "1-8 generic rules '##SEL' (1/10 written as '~neg.example##SEL', 1/12 with whitespace after '##'): SEL = '.ident' / '#ident' with ident from the CSS identifier grammar (plain, non-ASCII incl. combining marks / ZWNJ / connector punctuation, backslash-escaped punctuation, hex escapes of 1-6 digits with/without the terminating space, upper/lower-case digits) followed by nothing (simple) or a compound/descendant/list tail (complex, often sharing its key with a simple rule; 1 case in 12 adds a family of 2-90 complex rules under one key), or a selector starting with neither; class/id query sets = the unescaped names of a subset of the rules + near misses (escaped spelling, prefix, suffix, case, other namespace); exception sets drawn from the rules' selectors. Oracle: identifiers are generated together with their unescaped value; expected lookup result = selectors whose unescaped key is queried, minus exceptions (asked of the built engine and of an engine loaded from its serialized bytes); partition: each selector is served by exactly one of hidden_class_id_selectors(own key) and url_cosmetic_resources(..).hide_selectors. Non-trivial = a rule with an escape, or a complex rule sharing its key with a simple one.".into();
     ctx.assumptions = vec!["NUL, surrogate and out-of-range code points are not generated (CSS maps them to U+FFFD; the library drops such rules)".into()];
     let n = ctx.tier.pick(2_000_000, 12_000_000);
     drive(ctx, "generic", n, 200, &decode, &check_case);
